@@ -319,8 +319,11 @@ def oracle_pair(env, va, vb, single, ident, stats):
             if not (c == ("EXC", "ZeroDivisionError") or c[0] in ("int", "rat")):
                 env.fail(inp, f"modulo by zero gives {c}: neither ZeroDivisionError nor a number", cls="modulo-by-zero-nonnumber")
             continue
+        if c[0] == "EXC":
+            env.fail(inp, f"raises {c[1]} (expected {want})", cls=f"raises:{op}")
+            continue
         if c[0] not in ("int", "rat"):
-            env.fail(inp, f"result leaves the number types: {c} (expected {want})", cls=f"nonrational:{op}")
+            env.fail(inp, f"result leaves the number types: it is a {c[1]} (expected {want})", cls=f"nonrational:{op}")
             continue
         if c[0] == "rat" and (c[2] <= 1 or math.gcd(c[1], c[2]) != 1):
             env.fail(inp, f"rational result not in lowest terms / integer typed as Rational: {c}", cls=f"unreduced:{op}")
